@@ -13,14 +13,25 @@ theorem exec_cb (P : Prog) (s s' : State) (t : Nat) (i : Instr) (rest : List Ins
     | (simp; done)
     | (simp [upd_apply]; first | omega | (split <;> simp_all)))
 
+theorem exec_named (P : Prog) (s s' : State) (t : Nat) (i : Instr) (rest : List Instr)
+    (h : exec P s t i rest = some s') : (s'.th t).named = (s.th t).named := by
+  cases i
+  case' act a => cases a
+  case' joinAndFree l => cases l
+  all_goals exec_split h
+  all_goals (first
+    | (simp; done)
+    | (simp [upd_apply]; first | assumption | (split <;> simp_all) | (intro hh; simp_all)))
+
 structure WrapInv (P : Prog) (s : State) : Prop where
   eq : WEq P s
   suf : ∀ k, aSuf (s.th k).code
   cb : s.cbLive = sumTo P.n (fun k => (s.th k).chain.length)
+  nm : ∀ k, (s.th k).named = true → (s.th k).status = .created
 
 theorem otherRel_chain {s : State} {k : Nat} {a b : Th} (h : OtherRel s k a b) (h0 : a.status = .notCreated → a.chain = []) :
     b.chain = a.chain := by
-  rcases h with rfl | rfl | ⟨hs, rfl⟩ | ⟨_, rfl⟩
+  rcases h with rfl | rfl | ⟨hs, _, rfl⟩ | ⟨_, rfl⟩
   · rfl
   · rfl
   · simp [h0 hs]
@@ -30,8 +41,9 @@ theorem wrapInv_upd_self (P : Prog) (s s' : State) (t : Nat) (x : Th) (hi : Wrap
     (hth : s'.th = upd s.th t x)
     (hW : s'.wLive + wwMinus x + wwPlus P t (s.th t) = s.wLive + wwMinus (s.th t) + wwPlus P t x)
     (hsuf : aSuf x.code)
-    (hcb : s'.cbLive + (s.th t).chain.length = s.cbLive + x.chain.length) : WrapInv P s' := by
-  refine ⟨wEq_upd1 P s s' t x hi.eq ht hth hW, fun k => ?_, ?_⟩
+    (hcb : s'.cbLive + (s.th t).chain.length = s.cbLive + x.chain.length)
+    (hnm : x.named = true → x.status = .created) : WrapInv P s' := by
+  refine ⟨wEq_upd1 P s s' t x hi.eq ht hth hW, fun k => ?_, ?_, fun k hk => ?_⟩
   · by_cases hk : k = t
     · subst hk; rw [hth]; simpa using hsuf
     · rw [hth]; simpa [upd_apply, hk] using hi.suf k
@@ -40,6 +52,9 @@ theorem wrapInv_upd_self (P : Prog) (s s' : State) (t : Nat) (x : Th) (hi : Wrap
     have := hi.cb
     simp only [hth, upd_same] at h1 ⊢
     omega
+  · by_cases hkt : k = t
+    · subst hkt; rw [hth] at hk ⊢; simp at hk ⊢; exact hnm hk
+    · rw [hth] at hk ⊢; simp [upd_apply, hkt] at hk ⊢; exact hi.nm k hk
 
 theorem holds_active (P : Prog) (k : Nat) (st st' : Status)
     (h : (st = .atexitDone ∨ st = .handedOver ∨ st = .funcDone) ∧ (st' = .atexitDone ∨ st' = .handedOver ∨ st' = .exited)) :
@@ -48,27 +63,42 @@ theorem holds_active (P : Prog) (k : Nat) (st st' : Status)
   rcases h1 with rfl | rfl | rfl <;> rcases h2 with rfl | rfl | rfl <;> simp [holds]
 
 theorem wrapInv_thr (P : Prog) (hm0 : P.managed 0 = false) (s s' : State) (t : Nat) (h : step P s t = some s')
-    (hc : CountInv P s) (hl : LogInv s) (hi : WrapInv P s) : WrapInv P s' := by
+    (hc : CountInv P s) (hl : LogInv s) (hr : RefInv s) (hi : WrapInv P s) : WrapInv P s' := by
   have hlt : ∀ k, (s.th k).status ≠ .notCreated → k < P.n := by
     intro k hk
     by_cases hkn : k < P.n
     · exact hkn
     · exact absurd (hc.big k (by omega)) hk
+  -- a thread that is past `created` has released its name
+  have hnf : (s.th t).status ≠ .created → (s.th t).named = false := by
+    intro hne
+    cases hh : (s.th t).named
+    · rfl
+    · exact absurd (hi.nm t hh) hne
   rcases step_cases P s s' t h with ⟨hs, rfl⟩ | ⟨hs, ht0, hcd, rfl⟩ | ⟨hs, ht0, hcd, rfl⟩ | ⟨hs, rfl⟩ | ⟨hs, hcd, rfl⟩ | ⟨hs, i, rest, hcd, he⟩
-  · have ht := hlt t (by rw [hs]; simp)
+  · -- start: the name string (if any) is applied and released
+    have ht := hlt t (by rw [hs]; simp)
     have hc0 := hc.nocode t (Or.inr (Or.inl hs))
-    refine wrapInv_upd_self P s _ t _ hi ht (startStep_th P s t) ?_ (aSuf_map_act _) rfl
-    simp [wwMinus, wwPlus, hc0, hs, wsum, wsum_map_act, startStep, pushW, pushLog, holds]
+    have hpos : (s.th t).named.toNat ≤ s.wLive := by
+      have h1 : sumTo P.n (fun j => wwMinus (s.th j)) + (s.th t).named.toNat ≤ sumTo P.n (fun j => wwPlus P j (s.th j)) := by
+        refine sumTo_ltn P.n t _ _ _ ht (fun j _ => ?_) ?_
+        · have := aSuf_le _ (hi.suf j); simp only [wwMinus, wwPlus]; omega
+        · simp only [wwMinus, wwPlus, nameHeld, hc0, wsum]; omega
+      have := hi.eq; unfold WEq at this; omega
+    refine wrapInv_upd_self P s _ t _ hi ht (startStep_th P s t) ?_ (aSuf_map_act _) rfl (by simp)
+    simp [wwMinus, wwPlus, nameHeld, hc0, hs, wsum, wsum_map_act, startStep, pushW, pushLog, holds]
     omega
   · have ht := hlt t (by rw [hs]; simp)
-    refine wrapInv_upd_self P s _ t _ hi ht (exitStep_th s t) ?_ (hi.suf t) rfl
+    have hn := hnf (by rw [hs]; simp)
+    refine wrapInv_upd_self P s _ t _ hi ht (exitStep_th s t) ?_ (hi.suf t) rfl (by simp [hn])
     subst ht0
-    simp [wwMinus, wwPlus, holds]
+    simp [wwMinus, wwPlus, nameHeld, holds]
   · -- function returns: an unmanaged thread frees its wrapper
     have ht := hlt t (by rw [hs]; simp)
+    have hn := hnf (by rw [hs]; simp)
     by_cases hmg : P.managed t = true
-    · refine wrapInv_upd_self P s _ t _ hi ht (funcEndStep_th P s t) ?_ (hi.suf t) ?_
-      · simp [funcEndStep, hmg, wwMinus, wwPlus, hs, holds, pushLog]
+    · refine wrapInv_upd_self P s _ t _ hi ht (funcEndStep_th P s t) ?_ (hi.suf t) ?_ (by simp [hn])
+      · simp [funcEndStep, hmg, wwMinus, wwPlus, nameHeld, hs, holds, pushLog]
       · simp [funcEndStep, hmg, pushLog]
     · have hpos : 1 ≤ s.wLive := by
         have h1 : sumTo P.n (fun j => wwMinus (s.th j)) + 1 ≤ sumTo P.n (fun j => wwPlus P j (s.th j)) := by
@@ -76,16 +106,17 @@ theorem wrapInv_thr (P : Prog) (hm0 : P.managed 0 = false) (s s' : State) (t : N
           · have := aSuf_le _ (hi.suf j); simp only [wwMinus, wwPlus]; omega
           · have := aSuf_le _ (hi.suf t); simp only [wwMinus, wwPlus, hs, holds, ht0, hmg]; simp; omega
         have := hi.eq; unfold WEq at this; omega
-      refine wrapInv_upd_self P s _ t _ hi ht (funcEndStep_th P s t) ?_ (hi.suf t) ?_
-      · simp [funcEndStep, hmg, wwMinus, wwPlus, hs, holds, pushLog, freeWrapper, ht0]; omega
+      refine wrapInv_upd_self P s _ t _ hi ht (funcEndStep_th P s t) ?_ (hi.suf t) ?_ (by simp [hn])
+      · simp [funcEndStep, hmg, wwMinus, wwPlus, nameHeld, hs, holds, pushLog, freeWrapper, ht0]; omega
       · simp [funcEndStep, hmg, pushLog, freeWrapper]
   · have ht := hlt t (by rw [hs]; simp)
+    have hn := hnf (by rw [hs]; simp)
     have hc0 := hc.nocode t (Or.inr (Or.inr hs))
     cases hch : (s.th t).chain with
     | nil =>
       rw [atexitStep_nil P s t hch]
-      refine wrapInv_upd_self P s _ t _ hi ht rfl ?_ ?_ (by simp [hch])
-      · simp only [wwMinus, wwPlus, hc0, hs]
+      refine wrapInv_upd_self P s _ t _ hi ht rfl ?_ ?_ (by simp [hch]) (by simp [hn])
+      · simp only [wwMinus, wwPlus, nameHeld, hc0, hs]
         rw [holds_active P t .funcDone .atexitDone (by simp)]
         split <;> simp [handOverCode, wsum, aPlus, aMinus]
       · simp only; split <;> simp [handOverCode, aSuf, wsum, aPlus, aMinus]
@@ -97,21 +128,23 @@ theorem wrapInv_thr (P : Prog) (hm0 : P.managed 0 = false) (s s' : State) (t : N
             (by simp [hch])
           rw [sumTo_zero] at this; omega
         have := hi.cb; omega
-      refine wrapInv_upd_self P s _ t _ hi ht rfl ?_ (hi.suf t) ?_
-      · simp [wwMinus, wwPlus, pushLog]
+      refine wrapInv_upd_self P s _ t _ hi ht rfl ?_ (hi.suf t) ?_ (by simp [hn])
+      · simp [wwMinus, wwPlus, nameHeld, pushLog]
       · simp [pushLog, hch]; omega
   · have ht := hlt t (by rcases hs with hs | hs <;> rw [hs] <;> simp)
-    refine wrapInv_upd_self P s _ t _ hi ht (exitStep_th s t) ?_ (hi.suf t) rfl
+    have hn := hnf (by rcases hs with hs | hs <;> rw [hs] <;> simp)
+    refine wrapInv_upd_self P s _ t _ hi ht (exitStep_th s t) ?_ (hi.suf t) rfl (by simp [hn])
     have : holds P t (s.th t).status = holds P t .exited := by
       rcases hs with hs | hs <;> rw [hs] <;> exact holds_active P t _ _ (by simp)
-    simp [wwMinus, wwPlus, this]
+    simp [wwMinus, wwPlus, nameHeld, this]
   · have hne : (s.th t).status ≠ .notCreated := by rcases hs with hs | hs | hs <;> rw [hs] <;> simp
+    have hn := hnf (by rcases hs with hs | hs | hs <;> rw [hs] <;> simp)
     have ht := hlt t hne
     have oth := exec_other P s s' t i rest he
     have hsuf := hi.suf t
     rw [hcd] at hsuf
-    refine ⟨exec_wEq P s s' t i rest hcd ht hc.big (fun k hk => hc.nocode k (Or.inl hk)) hc.memb hi.suf hm0 he hi.eq,
-      fun k => ?_, ?_⟩
+    refine ⟨exec_wEq P s s' t i rest hcd ht hc.big (fun k hk => hc.nocode k (Or.inl hk)) hc.memb hi.suf hm0
+      (fun k hm => hr.copy k (hr.refs.mj t k hm)) hi.nm he hi.eq, fun k => ?_, ?_, fun k hk => ?_⟩
     · by_cases hkt : k = t
       · subst hkt; exact exec_aSuf P s s' k i rest hsuf he
       · rcases otherRel_code (oth k hkt) with h1 | h1 <;> rw [h1]
@@ -123,30 +156,40 @@ theorem wrapInv_thr (P : Prog) (hm0 : P.managed 0 = false) (s s' : State) (t : N
       have h2 := exec_cb P s s' t i rest he
       have := hi.cb
       omega
+    · by_cases hkt : k = t
+      · subst hkt; rw [exec_named P s s' k i rest he, hn] at hk; cases hk
+      · rcases oth k hkt with h1 | h1 | ⟨_, _, h1⟩ | ⟨h0, h1⟩
+        · rw [h1] at hk ⊢; exact hi.nm k hk
+        · rw [h1] at hk ⊢; exact hi.nm k hk
+        · rw [h1]
+        · rw [h1] at hk; have := hi.nm k hk; rw [h0] at this; cases this
 
 theorem wrapInv_congr (P : Prog) (s s' : State) (hi : WrapInv P s)
-    (hth : ∀ k, (s'.th k).code = (s.th k).code ∧ (s'.th k).status = (s.th k).status ∧ (s'.th k).chain = (s.th k).chain)
+    (hth : ∀ k, (s'.th k).code = (s.th k).code ∧ (s'.th k).status = (s.th k).status ∧ (s'.th k).chain = (s.th k).chain ∧
+      (s'.th k).named = (s.th k).named)
     (hw : s'.wLive = s.wLive) (hcb : s'.cbLive = s.cbLive) : WrapInv P s' := by
-  refine ⟨?_, fun k => by rw [(hth k).1]; exact hi.suf k, ?_⟩
+  refine ⟨?_, fun k => by rw [(hth k).1]; exact hi.suf k, ?_, fun k hk => ?_⟩
   · unfold WEq
     rw [hw, sumTo_congr P.n _ (fun k => wwMinus (s.th k)) (fun j _ => by simp [wwMinus, (hth j).1]),
       sumTo_congr P.n (fun k => wwPlus P k (s'.th k)) (fun k => wwPlus P k (s.th k))
-        (fun j _ => by simp [wwPlus, (hth j).1, (hth j).2.1])]
+        (fun j _ => by simp [wwPlus, nameHeld, (hth j).1, (hth j).2.1, (hth j).2.2.2])]
     exact hi.eq
   · rw [hcb, sumTo_congr P.n (fun k => (s'.th k).chain.length) (fun k => (s.th k).chain.length)
-      (fun j _ => by rw [(hth j).2.2])]
+      (fun j _ => by rw [(hth j).2.2.1])]
     exact hi.cb
+  · rw [(hth k).2.2.2] at hk; rw [(hth k).2.1]; exact hi.nm k hk
 
 theorem wrapInv_init (P : Prog) : WrapInv P (init P) := by
   have hcode : ∀ k, ((init P).th k).code = [] := by intro k; simp only [init]; split <;> rfl
   have hchain : ∀ k, ((init P).th k).chain = [] := by intro k; simp only [init]; split <;> rfl
-  refine ⟨?_, fun k => by rw [hcode]; trivial, ?_⟩
+  have hnamed : ∀ k, ((init P).th k).named = false := by intro k; simp only [init]; split <;> rfl
+  refine ⟨?_, fun k => by rw [hcode]; trivial, ?_, fun k hk => by rw [hnamed] at hk; cases hk⟩
   · unfold WEq
     have h1 : sumTo P.n (fun k => wwMinus ((init P).th k)) = 0 := by
       rw [← sumTo_zero P.n]; apply sumTo_congr; intro j _; simp [wwMinus, hcode, wsum]
     have h2 : sumTo P.n (fun k => wwPlus P k ((init P).th k)) = 0 := by
       rw [← sumTo_zero P.n]; apply sumTo_congr; intro j _
-      simp only [wwPlus, hcode, wsum]
+      simp only [wwPlus, nameHeld, hcode, hnamed, wsum]
       by_cases hj : j = 0
       · subst hj; simp [holds]
       · simp [init, hj]
@@ -163,10 +206,10 @@ theorem wrapInv_reachable (P : Prog) (hn : 0 < P.n) (hm0 : P.managed 0 = false) 
     have hc := countInv_reachable P hn hm0 s hr
     have hl := (logInv_reachable P s hr).1
     cases l with
-    | thr t => exact wrapInv_thr P hm0 s s' t hs hc hl ih
+    | thr t => exact wrapInv_thr P hm0 s s' t hs hc hl (refInv_reachable P s hr) ih
     | tick d =>
       simp only [stepL, Option.some.injEq] at hs; subst hs
-      exact wrapInv_congr P s _ ih (fun k => ⟨rfl, rfl, rfl⟩) rfl rfl
+      exact wrapInv_congr P s _ ih (fun k => ⟨rfl, rfl, rfl, rfl⟩) rfl rfl
     | spur t =>
       simp only [stepL] at hs
       split at hs
@@ -187,7 +230,12 @@ theorem no_leak_final (P : Prog) (s : State) (hc : CountInv P s) (hl : LogInv s)
       rw [← sumTo_zero P.n]; apply sumTo_congr; intro j hj; simp [wwMinus, (hfin j hj).1, wsum]
     have h2 : sumTo P.n (fun k => wwPlus P k (s.th k)) = 0 := by
       rw [← sumTo_zero P.n]; apply sumTo_congr; intro j hj
-      simp only [wwPlus, (hfin j hj).1, wsum, Nat.zero_add]
+      have hnm0 : (s.th j).named = false := by
+        cases hh : (s.th j).named
+        · rfl
+        · have := hw.nm j hh
+          rcases (hfin j hj).2 with h | h | h <;> rw [h] at this <;> cases this
+      simp only [wwPlus, nameHeld, hnm0, (hfin j hj).1, wsum, Nat.zero_add]
       unfold holds
       by_cases hj0 : j = 0
       · simp [hj0]
